@@ -34,6 +34,10 @@ def _job_worker(conn, cid, params, tier, seed, concrete, prop=None, sample=0, qu
         if tier == "thorough":
             b = dict(max_paths=400000, timeout_s=1500.0, solver_timeout_ms=60000)
         b.update(ct.budget.get(tier, {}))
+        if params.get("search_paths"):
+            # a shape too large to exhaust: a bounded depth-first search of the first N paths (deterministic order); reaching
+            # the bound is not "undecided", the shape simply claims no exhaustiveness (listed under partial_shapes in the evidence)
+            b["max_paths"] = int(params["search_paths"])
         p = dict(params)
         p["_tier"] = tier
         p["_seed"] = seed
@@ -78,7 +82,7 @@ def _job_worker(conn, cid, params, tier, seed, concrete, prop=None, sample=0, qu
                        covered=ex.covered, samples=ex.samples, symbols=len(ex.symbols),
                        unknown_branches=ex.unknown_branches, notes=ex.notes,
                        frontier=[list(pf) for pf in ex.queue] if ex.sliced else [],
-                       max_paths=b["max_paths"], timeout_s=b["timeout_s"])
+                       max_paths=b["max_paths"], timeout_s=b["timeout_s"], partial_ok=bool(params.get("search_paths")))
         out["wall"] = time.time() - t0
         conn.send(out)
     except BaseException as e:  # noqa
@@ -88,7 +92,7 @@ def _job_worker(conn, cid, params, tier, seed, concrete, prop=None, sample=0, qu
         conn.close()
 
 
-SLICE = int(os.environ.get("VERIF_SLICE", "400"))
+SLICE = int(os.environ.get("VERIF_SLICE", "1200"))
 
 
 def _merge(a, b):
@@ -182,6 +186,9 @@ def run_jobs(jobs, nproc, hard_timeout):
                 stop = any(f["label"] not in kl for f in (agg.get("failures") or [])) or bool(agg.get("error"))
                 over = agg.get("paths", 0) >= r.get("max_paths", 10 ** 9) or (time.time() - root_t0[root]) > r.get("timeout_s", 10 ** 9)
                 if stop:
+                    root_done.add(root)
+                elif over and r.get("partial_ok"):
+                    agg["partial"] = True
                     root_done.add(root)
                 elif over:
                     agg["budget_exhausted"] = True
